@@ -44,7 +44,7 @@ func main() {
 		fmt.Fprintln(os.Stderr, "-out required")
 		os.Exit(2)
 	}
-	w, err := casefile.New(*out, "C15", "From VLib Require Import CaseLib.\nFrom C15 Require Import Model ModelPar ModelPL ModelUse CaseDefs.", 150)
+	w, err := casefile.New(*out, "C15", "From VLib Require Import CaseLib.\nFrom C15 Require Import Model ModelPar ModelPL ModelUse ModelProxy CaseDefs.", 150)
 	if err != nil {
 		panic(err)
 	}
